@@ -723,7 +723,7 @@ def nontrivial(seq):
 
 
 def oracle_sequences(run: Run, thorough: bool):
-    n = 600 if thorough else 48
+    n = 600 if thorough else 60
     return list(DIRECTED) + [gen_sequence(run.rng("seq", i)) for i in range(n)]
 
 
@@ -922,6 +922,7 @@ def trace_tie(run: Run, thorough: bool):
     finally:
         shutil.rmtree(wd, ignore_errors=True)
 
+    run.log(f"recorded {sum(len(v) for v in cases.values())} real calls")
     checks = [("estimate", "list (list nat) * list nat * nat * list nat * list (list nat) * list (option unit) * list rop", "check_estimate_call"),
               ("simulate", "list (list nat) * list nat * list (option unit) * list rop", "check_simulate_call"),
               ("mcmc", "list (list nat) * list nat * list nat * list nat * list (option unit) * list rop", "check_mcmc_call"),
@@ -1028,15 +1029,18 @@ def main(run: Run):
     import threading
     seqs = oracle_sequences(run, thorough)
     box, side = {}, Run("C13", run.tier, run.seed)       # the thread only collects; everything is merged in this thread
-    th = threading.Thread(target=lambda: box.update(results=run_workers(side, seqs, 10 if thorough else 7, 1500 if thorough else 110)))
+    th = threading.Thread(target=lambda: box.update(results=run_workers(side, seqs, 10 if thorough else 7, 1500 if thorough else 85)))
     th.start()
     try:
         run.prove("C13", OBLIGATIONS)
+        run.log(f"proved {len(run.discharged)}/{len(OBLIGATIONS)} obligations")
         if build_tie(run):
             use_impl()
             trace_tie(run, thorough)
+            run.log("trace correspondence done")
     finally:
         th.join()
+        run.log("sequence oracle done")
         shutil.rmtree(SCRATCH, ignore_errors=True)
     run._broken += side._broken
     oracle_merge(run, seqs, box.get("results", {}))
